@@ -86,6 +86,55 @@ partial def aliasesOfSym (x : String) : Rule → List String
   | .prec _ _ a => aliasesOfSym x a
   | _ => []
 
+/-- all rules that occur under a REPEAT/REPEAT1 somewhere in the grammar (candidates for what an
+auxiliary symbol repeats) -/
+partial def repContents : Rule → List Rule
+  | .rep a => a :: repContents a
+  | .rep1 a => a :: repContents a
+  | .seq a b => repContents a ++ repContents b
+  | .choice a b => repContents a ++ repContents b
+  | .field _ a => repContents a
+  | .alias _ _ a => repContents a
+  | .prec _ _ a => repContents a
+  | _ => []
+
+partial def hasAlias : Rule → Bool
+  | .alias _ _ _ => true
+  | .seq a b => hasAlias a || hasAlias b
+  | .choice a b => hasAlias a || hasAlias b
+  | .rep a => hasAlias a
+  | .rep1 a => hasAlias a
+  | .field _ a => hasAlias a
+  | .prec _ _ a => hasAlias a
+  | .token a => hasAlias a
+  | .immToken a => hasAlias a
+  | _ => false
+
+/-- the grammars whose table symbols carry the names the token-level semantics `DerivesTok` talks
+about: simple terminals, no aliases (a default alias renames a table symbol), no hidden terminal rules
+(their token carries the string's name), no non-terminal extras; for these a failing `relOK` is an alarm -/
+def relScope (g : Grammar) : Bool :=
+  simpleTerminals g && !(g.rules.any fun e => hasAlias e.2) &&
+  !(g.rules.any fun e => isTerminalBody e.2 && g.hidden e.1) &&
+  g.extras.all fun e => match e with
+    | .sym x => match g.body x with
+      | some b => isTerminalBody b
+      | none => false
+    | _ => true
+
+/-- search for the auxiliary-symbol assignment (untrusted: `relOK` checks the result) -/
+def findAux (g : Grammar) (tbl : Table) (prods : List (Nat × List Nat × Nat)) : AuxMap :=
+  let cands := (g.rules.flatMap fun e => repContents e.2)
+  let auxSyms := (List.range tbl.symbolCount).filter fun y =>
+    y ≥ tbl.tokenCount && (g.body (tbl.symName y)).isNone
+  let pass := fun (aux : AuxMap) =>
+    auxSyms.foldl (fun aux R =>
+      if (aux.lookup R).isSome then aux else
+      match cands.find? (fun a => (prods.filter fun p => p.1 == R).all (prodOK g tbl ((R, a) :: aux))) with
+      | some a => (R, a) :: aux
+      | none => aux) aux
+  (List.range (auxSyms.length + 1)).foldl (fun aux _ => pass aux) []
+
 def onReady (s : GState) : GState × String :=
   let tbl := Table.ofLines s.tableLines.toList
   let closed := tableClosed tbl
@@ -102,6 +151,17 @@ def onReady (s : GState) : GState × String :=
       let r := dynOracle g s.exh
       if r.2 then some r.1 else none
     else none
+  let safe := tableSafe tbl
+  let (rel, nprods, badProd) :=
+    if safe && simple && tbl.stateCount ≤ 250 then
+      let prods := prodList tbl
+      let aux := findAux g tbl prods
+      let ok := relOK g tbl aux
+      let bad := match prods.find? (fun p => !prodOK g tbl aux p) with
+        | some p => s!"{tbl.symName p.1}->{p.2.1.map tbl.symName}"
+        | none => if ok then "-" else "start"
+      (if ok then "true" else "false", prods.length, bad)
+    else ("na", 0, "-")
   let opOK := match s.optable with
     | some t => decide (g.rules = opGrammarRules t)
     | none => true
@@ -109,7 +169,7 @@ def onReady (s : GState) : GState × String :=
     let i := tbl.syms.getD t.sym default
     i.name == t.tok.name && t.sym < tbl.tokenCount
   ({ s with tbl := tbl, closed := closed, g := g, oracle := oracle, opOK := opOK, dynO := dynO },
-   s!"G {s.gid} kind={s.kind} closed={closed} rootsafe={rootSafe tbl} states={tbl.stateCount} symbols={tbl.symbolCount} rules={g.rules.length} " ++
+   s!"G {s.gid} kind={s.kind} closed={closed} rootsafe={rootSafe tbl} tablesafe={safe} rel={rel} relscope={relScope g} prods={nprods} badprod={badProd.replace " " "_"} states={tbl.stateCount} symbols={tbl.symbolCount} rules={g.rules.length} " ++
    s!"repconflict={suspiciousRepetitionCells tbl} simple={simple} oracle={oracle.isSome} dyn={dynO.isSome} L={s.exh} lang={langSize} fix={fix} opgrammar={opOK} terms={termsOK} nterm={s.terms.size}")
 
 def drvName : Outcome → String
